@@ -96,7 +96,7 @@ func headerValues(h map[string][]string, name string) []string {
 
 func init() {
 	register(&CheckDef{ID: "C09", Level: "exploration", Engine: "A", Draw: drawC09,
-		Rule: "1-4 concurrent clients (h2 raw-frame / HTTP/1.1), generated ClientHellos, 1-3 requests each carrying 0-3 client-supplied Forwarded / X-Forwarded-* lines, IPv4/IPv6 peers, -preserve-host on/off through the real flag wiring; schedule (delivery order, segmentation) from the seed. Non-trivial: at least one request reached the back-end. Distinct: distinct schedule hashes (sequence of controller action labels).",
+		Rule: "1-4 concurrent clients (h2 raw-frame / HTTP/1.1), generated ClientHellos, 1-3 requests each carrying 0-3 client-supplied Forwarded / X-Forwarded-* lines, IPv4/IPv6 peers, request hosts as plain names or (30%) with :443 / :8443, as IPv6 / IPv4 literals, in mixed case, -preserve-host on/off through the real flag wiring; schedule (delivery order, segmentation) from the seed. Non-trivial: at least one request reached the back-end. Distinct: distinct schedule hashes (sequence of controller action labels).",
 	})
 }
 
